@@ -118,6 +118,47 @@ pub fn new_source_literals(l: L) -> Vec<String> {
     out
 }
 
+/// Symbol-like string literals (no letter, no digit; at most 3 characters once trimmed) of the CURRENT source of the
+/// language's module and of the scanner that the pinned tree did not have: '&', '%', '+' ... brought by a change.
+pub fn new_symbol_literals(l: L) -> Vec<String> {
+    let root = crate::infra::verif_root();
+    let code = match l {
+        L::En => "en",
+        L::Fr => "fr",
+        L::Es => "es",
+        L::Pt => "pt",
+        L::It => "it",
+        L::De => "de",
+        L::Nl => "nl",
+    };
+    let known = [",", ".", "-", " ", "'", "", "\u{2019}", "/", "º", "ª", "ᵒˢ", "ᵃˢ", ".ᵉʳ", "1/", "{}", "{}{}", "{}.{}", "{},{}", "1/{}", "{}{}{}", ":", "(", ")", "[", "]", "{:?}", "\\n", "|", "_", "..", "...", "?", "!", ";", "\""];
+    let re = regex::Regex::new(r#""((?:[^"\\]|\\.)*)""#).unwrap();
+    let mut out: Vec<String> = vec![];
+    let mut files: Vec<std::path::PathBuf> = vec![std::path::PathBuf::from(format!("{root}/harness/repo/src/word_to_digit.rs")), std::path::PathBuf::from(format!("{root}/harness/repo/src/tokenizer.rs"))];
+    if let Ok(rd) = std::fs::read_dir(format!("{root}/harness/repo/src/lang/{code}")) {
+        files.extend(rd.flatten().map(|e| e.path()).filter(|p| p.extension().map_or(false, |e| e == "rs")));
+    }
+    files.sort();
+    for f in files {
+        let Ok(text) = std::fs::read_to_string(&f) else { continue };
+        let code_part = text.split("#[cfg(test)]").next().unwrap_or("");
+        for line in code_part.lines() {
+            let t = line.trim_start();
+            if t.starts_with("//") || t.starts_with("#[") {
+                continue;
+            }
+            for c in re.captures_iter(line) {
+                let w = c[1].trim().to_string();
+                let n = w.chars().count();
+                if n >= 1 && n <= 3 && !w.chars().any(|ch| ch.is_alphanumeric() || ch == '\\' || ch == '{' || ch == '}') && !known.contains(&w.as_str()) && !out.contains(&w) {
+                    out.push(w);
+                }
+            }
+        }
+    }
+    out
+}
+
 /// Words from which very large numbers are built: nine, tens, hundred, one, the scale words of the class
 /// alphabet and one representative per (value, cardinal/ordinal) among the vocabulary's scale words.
 pub fn big_number_words(l: L, lang: &text2num::Language) -> Vec<String> {
